@@ -136,13 +136,22 @@ impl Float {
 
         let one = Self::from_u64(sem, 1);
 
-        if x > &one {
-            let sx = x.scale(-3, RoundingMode::Zero);
-            let esx = Self::exp_range_reduce(&sx);
-            return esx.sqr().sqr().sqr();
+        // Divide by eight until the value is small, and undo each step with
+        // three squarings. This is a loop and not a recursion because the
+        // number of steps grows with the exponent of 'x', which can exhaust
+        // the stack in formats with a wide exponent.
+        let mut x = x.clone();
+        let mut steps = 0;
+        while x > one {
+            x = x.scale(-3, RoundingMode::Zero);
+            steps += 1;
         }
 
-        Self::exp_taylor(x)
+        let mut res = Self::exp_taylor(&x);
+        for _ in 0..steps {
+            res = res.sqr().sqr().sqr();
+        }
+        res
     }
 
     /// Computes exponential function `e^self`.
